@@ -111,8 +111,9 @@ Proof. exact kind_class_table. Qed.
 
 (* B: number / ndarray / MaskedArray / nested-list operands on either side give the
    same class, kind, shapes and values as the direct form (the operand converted
-   explicitly) whenever both are accepted (468 x 66 pairs x 7 operators x 2 sides) *)
-Theorem C04_reflected_agrees : forall o q m, In o OPS -> In q enum_q -> In m enum_nonq ->
+   explicitly) whenever both are accepted (the 180 unit-less polymath operands x 66
+   x 7 operators x 2 sides) *)
+Theorem C04_reflected_agrees : forall o q m, In o OPS -> In q enum_q0 -> In m enum_nonq ->
   reflected_ok o q m = true.
 Proof. exact reflected_agrees. Qed.
 
@@ -140,7 +141,7 @@ Proof. vm_compute. split; reflexivity. Qed.
 Example C04_ex_broadcast : broadcasted_shape [[3;1]; [2]; []; [4;1;1]] = Some [4;3;2]
   /\ broadcasted_shape [[3]; [2]] = None.
 Proof. vm_compute. split; reflexivity. Qed.
-Example C04_ex_sizes : length enum_q = 468 /\ length enum_nonq = 66.
+Example C04_ex_sizes : length enum_q = 468 /\ length enum_nonq = 66 /\ length enum_q0 = 180.
 Proof. exact enum_sizes. Qed.
 
 Print Assumptions C04_value_pointwise.
